@@ -30,7 +30,7 @@ struct { bool has; uint64_t closed; size_t cur; bool idx_has; uint64_t idx_val; 
   __CPROVER_loop_invariant(self->_sessions.has == (P0.has && !GC_W_DONE) && W_LIVE_UNTOUCHED && (self->_sessions.has ==> self->_sessions.n > 0) && G_wit_destroyed == (P0.has && !self->_sessions.has)) \
   __CPROVER_loop_invariant(G.cl.closeCb_calls_w == ((GC_W_DONE && XSET) ? 1u : 0u) && (G.cl.closeCb_calls_w == 1 ==> (G.cl.erased_w && G.cl.why_w == TransportError_GCClosed && !G.cl.locked_w))) \
   __CPROVER_loop_invariant(COUNTERS_BY(self->_atomicStats.closed - P0.closed)) \
-  __CPROVER_loop_invariant((!P0.idx_has ==> !self->_peerIndex.has) && ((P0.idx_has && P0.idx_val == GSID && self->_sessions.has) ==> (self->_peerIndex.has && self->_peerIndex.val == GSID))) \
+  __CPROVER_loop_invariant((!P0.idx_has ==> !self->_peerIndex.has) && (self->_peerIndex.has ==> self->_peerIndex.val == P0.idx_val) && ((P0.idx_has && P0.idx_val == GSID && self->_sessions.has) ==> (self->_peerIndex.has && self->_peerIndex.val == GSID))) \
   __CPROVER_decreases(to.n - iora_j))
 
 /* shutdownDrain, loop 1 (collect pointers) */
@@ -48,7 +48,7 @@ struct { bool has; uint64_t closed; size_t cur; bool idx_has; uint64_t idx_val; 
   __CPROVER_loop_invariant(COUNTERS_BY(GIT.open_seen)) \
   __CPROVER_loop_invariant((SD_W_DONE && !W0.closed && W0.role == Role_ClientConnected && W0.fd == GFD) ==> !self->_tags.has) \
   __CPROVER_loop_invariant((SD_W_DONE && !W0.closed && W0.role != Role_ClientConnected && W0.pkey == GPK) ==> !self->_peerIndex.has) \
-  __CPROVER_loop_invariant((!P0.idx_has ==> !self->_peerIndex.has) && (!P0.tag_has ==> !self->_tags.has)) \
+  __CPROVER_loop_invariant((!P0.idx_has ==> !self->_peerIndex.has) && (!P0.tag_has ==> !self->_tags.has) && (self->_peerIndex.has ==> self->_peerIndex.val == P0.idx_val)) \
   __CPROVER_loop_invariant((G.cl.gfd_closed ==> !self->_tags.has) && (!G.cl.gfd_closed ==> self->_tags.has == P0.tag_has)) \
   __CPROVER_loop_invariant((SD_W_DONE && !W0.closed && W0.fd == GFD && W0.role == Role_ClientConnected) ==> G.cl.gfd_closed) \
   __CPROVER_decreases(toClose.n - iora_j))
